@@ -9,6 +9,7 @@ CONSTANTS
   ValueEq = TRUE
   SoloTries = 0
   SplitPC = FALSE
+  CommitRetry = TRUE
 INIT RInit
 NEXT RNext
 INVARIANTS OneWinnerPerVersion NotFollowed
